@@ -5,10 +5,13 @@ package transit
 
 import (
 	"context"
+	"encoding/base64"
 	"errors"
 	"strings"
 
 	"github.com/openbao/openbao/sdk/v2/framework"
+	"github.com/openbao/openbao/sdk/v2/helper/jsonutil"
+	"github.com/openbao/openbao/sdk/v2/helper/keysutil"
 	"github.com/openbao/openbao/sdk/v2/logical"
 )
 
@@ -77,10 +80,31 @@ func (b *backend) pathRestoreUpdate(ctx context.Context, req *logical.Request, d
 	}
 
 	if err := logical.EndTxStorage(ctx, req); err != nil {
+		// RestorePolicy has already put the restored policy into the cache;
+		// it was not stored, so do not keep it there.
+		b.lm.InvalidatePolicy(restoredKeyName(keyName, backupB64))
 		return nil, err
 	}
 
 	return nil, nil
+}
+
+// restoredKeyName returns the name under which RestorePolicy restores the
+// given backup: the requested name, or else the name stored in the backup.
+func restoredKeyName(keyName, backupB64 string) string {
+	if keyName != "" {
+		return keyName
+	}
+
+	var keyData keysutil.KeyData
+	backupBytes, err := base64.StdEncoding.DecodeString(backupB64)
+	if err == nil {
+		err = jsonutil.DecodeJSON(backupBytes, &keyData)
+	}
+	if err != nil || keyData.Policy == nil {
+		return ""
+	}
+	return keyData.Policy.Name
 }
 
 const (
